@@ -138,14 +138,8 @@ func judgeCase(ci int, c *genCase, out *vio.Out, st *replayStats) {
 			return
 		}
 	}
-	if len(c.Post) == 2 {
-		var wv item
-		var wok bool
-		json.Unmarshal(c.Post[0], &wv)
-		json.Unmarshal(c.Post[1], &wok)
-		if o.PostPanic != "" {
-			emit("drift", "Exhausted", 0, c.Post, o.PostPanic)
-		} else if len(o.Post) != 2 || !o.Post[0].(item).eq(wv) || o.Post[1].(bool) != wok {
+	if w, _ := json.Marshal(c.Post); len(c.Post) > 0 {
+		if g, _ := json.Marshal(o.Post); string(w) != string(g) {
 			emit("drift", "Exhausted", 0, c.Post, o.Post)
 		}
 	}
